@@ -19,7 +19,10 @@ RULE = ('cases = monitored well-formed chart with logging probes, send (with del
         'meta-event (quick: <=10 sampled k; thorough: every k) a property chart turning final at '
         'its k-th event makes that execute_once raise PropertyStatechartError with the code log '
         'equal to the reference log truncated right after meta-event k; (4) never-final property '
-        'charts leave the run signature equal to the unmonitored run. Non-trivial = k strictly '
+        'charts leave the run signature equal to the unmonitored run; in 40% of the cases the '
+        'monitored chart runs with contracts on and carries state invariants / transition post-'
+        'conditions and invariants that record sent(x)/received(x), and those records belong to '
+        'the signature. Non-trivial = k strictly '
         'inside a macro step that fires a transition; distinct = sha1(chart, history, k).')
 ASSUMPTIONS = ["the deprecated 'delayed event sent' meta-event is ignored in (1) but counted in k",
                'steps rejected with NonDeterminism/ConflictingTransitionsError only need the '
@@ -44,7 +47,13 @@ def strategy(tier):
                 o['extra' if 'id' in o else 'extra_entry'] = ['tick(0.25)']
         ks = None if big else draw(st.lists(st.floats(0, 0.999), min_size=4, max_size=10))
         order = draw(st.sampled_from(['recorder-first', 'final-first']))
-        return {'spec': spec, 'ops': ops, 'ks': ks, 'order': order}
+        # contracts of the monitored chart that read sent()/received() (evaluated, always true)
+        sprobe = None
+        if draw(st.floats(0, 1)) < 0.4:
+            sprobe = {'states': [x['sid'] for x in spec['states'] if draw(st.floats(0, 1)) < 0.5],
+                      'transitions': [t['id'] for t in spec['transitions']
+                                      if draw(st.floats(0, 1)) < 0.4]}
+        return {'spec': spec, 'ops': ops, 'ks': ks, 'order': order, 'sprobe': sprobe}
     return cases()
 
 
@@ -84,12 +93,32 @@ def norm_data(d):
     return {k: norm(d[k]) for k in sorted(d)}
 
 
-def run(spec, ops, monitor, k=None, order='recorder-first'):
+SPROBE = ("(slog.append((%r, %d, sent('e0'), sent('e1'), sent('e2'), sent('n0'), sent('n1'), "
+          "received('e0'), received('e1'), received('e2'))) or True)")
+
+
+def add_sprobes(spec, sprobe):
+    """state invariants / transition post-conditions and invariants reading sent()/received()"""
+    if not sprobe:
+        return spec
+    for x in spec['states']:
+        if x['sid'] in sprobe['states']:
+            x['inv'] = list(x.get('inv') or []) + [SPROBE % ('s', x['sid'])]
+    for t in spec['transitions']:
+        if t['id'] in sprobe['transitions']:
+            t['post'] = list(t.get('post') or []) + [SPROBE % ('tp', t['id'])]
+            t['inv'] = list(t.get('inv') or []) + [SPROBE % ('ti', t['id'])]
+    return spec
+
+
+def run(spec, ops, monitor, k=None, order='recorder-first', contracts=False):
     """monitor: None (unmonitored) | 'record' | 'final'.  Returns dict."""
     from sismic.interpreter import Interpreter
     from sismic.exceptions import PropertyStatechartError
     box = {}
-    d = Drive(spec, ctx_extra={'tick': lambda dt: box['d'].advance(dt)})
+    slog = []
+    d = Drive(spec, ignore_contract=not contracts,
+              ctx_extra={'tick': lambda dt: box['d'].advance(dt), 'slog': slog})
     box['d'] = d
     heard, plog = [], []
     if monitor:
@@ -125,12 +154,12 @@ def run(spec, ops, monitor, k=None, order='recorder-first'):
         elif op[0] == 'adv':
             d.advance(op[1])
         else:
-            h0, p0 = len(heard), len(plog)
+            h0, p0, s0 = len(heard), len(plog), len(slog)
             rec = d.step(op[1])
             marks.append((h0, len(heard), p0, len(plog)))
             sig.append({'result': rec['result'], 'exc': rec['exc'], 'config': rec['config_after'],
                         'log': [list(x) for x in rec['log']], 'v': rec['v_after'],
-                        'T': rec['T']})
+                        'T': rec['T'], 'sent_received_probes': [list(x) for x in slog[s0:]]})
             if rec['exc'] and rec['exc'] not in ('NonDeterminismError',
                                                  'ConflictingTransitionsError'):
                 raised = rec
@@ -170,12 +199,17 @@ def expected_meta(step, T, nlog0):
 
 def oracle(case):
     from ..cli import sha
-    spec = probes.instrument(case['spec'])
+    spec = add_sprobes(probes.instrument(case['spec']), case.get('sprobe'))
+    contracts = bool(case.get('sprobe'))
     by_tid = {t['id']: t for t in spec['transitions']}
     viol, labels, keys = [], {}, []
-    plain = run(spec, case['ops'], None)
-    ref = run(spec, case['ops'], 'record')
+    plain = run(spec, case['ops'], None, contracts=contracts)
+    ref = run(spec, case['ops'], 'record', contracts=contracts)
     labels['runs'] = 1
+    if contracts:
+        labels['runs with sent()/received() contracts in the monitored chart'] = 1
+        if any(any(r[2:7]) for s_ in ref['sig'] for r in s_['sent_received_probes']):
+            labels['runs where a contract saw sent(x) true'] = 1
     if plain['raised'] or ref['raised']:
         r = plain['raised'] or ref['raised']
         viol.append({'prop': PROP, 'kind': 'unexpected-exception', 'step': None,
@@ -261,7 +295,8 @@ def oracle(case):
         for j in range(p0, p1):
             step_of[j] = i
     for k in ks:
-        r = run(spec, case['ops'], 'final', k=k, order=case.get('order', 'recorder-first'))
+        r = run(spec, case['ops'], 'final', k=k, order=case.get('order', 'recorder-first'),
+                contracts=contracts)
         labels['faults injected'] = labels.get('faults injected', 0) + 1
         want_step = step_of[k - 1]
         pos_k = ref['heard'][k - 1][2]
